@@ -42,10 +42,10 @@ let handle toks =
          (list_of_string conf_of_string traj) (z_of_string code) (z_of_string box0)
          (empty_path (nat_of_string ml) Z0) (bool_of_string_ dead)
          (list_of_string (triple3 nat_of_string nat_of_string bool_of_string_) reads))
-  | ["gromacs"; fx; fix; rv; l; r; ml; code; dead; hsz; dsz; head0; fin; traj; ordt; eps] ->
+  | ["gromacs"; fx; fix; fix14; rv; l; r; ml; code; dead; hsz; dsz; head0; fin; traj; ordt; eps] ->
     string_of_result
       (gromacs_run (bool_of_string_ fx) (ord_of_string ordt) (z_of_string l) (z_of_string r) (bool_of_string_ rv)
-         (list_of_string conf_of_string traj) (z_of_string code) (bool_of_string_ fix)
+         (list_of_string conf_of_string traj) (z_of_string code) (bool_of_string_ fix) (bool_of_string_ fix14)
          (nat_of_string hsz) (nat_of_string dsz) (nat_of_string head0) (nat_of_string fin)
          (empty_path (nat_of_string ml) Z0) (bool_of_string_ dead)
          (list_of_string nat_of_string eps))
